@@ -10,11 +10,13 @@ import (
 	"strconv"
 	"strings"
 
+	"github.com/WuKongIM/WuKongIM/pkg/db/internal/dberrors"
 	"github.com/WuKongIM/WuKongIM/pkg/db/internal/engine"
 	"github.com/WuKongIM/WuKongIM/pkg/db/message"
 	channel "github.com/WuKongIM/WuKongIM/pkg/db/message/channelcompat"
 	"github.com/WuKongIM/WuKongIM/pkg/quorumlog"
 	"github.com/WuKongIM/WuKongIM/pkg/wklog"
+	"github.com/cockroachdb/pebble/v2"
 	"github.com/cockroachdb/pebble/v2/vfs"
 )
 
@@ -24,6 +26,9 @@ type c09Chan struct {
 	Key   channel.ChannelKey
 	ID    channel.ChannelID
 	Exact bool // every row is written through exact proposals (manifest + identities)
+	// Typed: driven through the typed domain API (db.OpenNodeStore ->
+	// MessageDB.Channel -> ChannelLog) instead of the compatibility Engine.
+	Typed bool
 }
 
 const c09Cursor = "committed"
@@ -34,9 +39,29 @@ type c09Store struct {
 	root string
 	eng  *message.Engine
 	st   []*message.ChannelStore
+	// typed flavour: the two calls db.OpenNodeStore makes for the message
+	// domain (engine.Open + message.NewDB), with a silent logger
+	tdb  *message.MessageDB
+	logs []*message.ChannelLog
 }
 
 func c09OpenStore(root string, chans []*c09Chan) (*c09Store, error) {
+	if len(chans) > 0 && chans[0].Typed {
+		e, err := engine.Open(root+"/db", engine.Options{Logger: wklog.NewNop()})
+		if err != nil {
+			return nil, err
+		}
+		s := &c09Store{root: root, tdb: message.NewDB(e), logs: make([]*message.ChannelLog, len(chans))}
+		for i, ch := range chans {
+			l, err := s.tdb.Channel(message.ChannelKey(ch.Key), message.ChannelID{ID: ch.ID.ID, Type: ch.ID.Type})
+			if err != nil {
+				s.tdb.Close()
+				return nil, err
+			}
+			s.logs[i] = l
+		}
+		return s, nil
+	}
 	eng, err := message.OpenWithLogger(root+"/db", wklog.NewNop())
 	if err != nil {
 		return nil, err
@@ -54,6 +79,14 @@ func c09OpenStore(root string, chans []*c09Chan) (*c09Store, error) {
 }
 
 func (s *c09Store) close() {
+	if s != nil && s.tdb != nil {
+		for _, l := range s.logs {
+			l.Close()
+		}
+		s.tdb.Close()
+		s.tdb = nil
+		return
+	}
 	if s == nil || s.eng == nil {
 		return
 	}
@@ -80,6 +113,14 @@ func c09ErrClass(err error) string {
 		return "empty"
 	case errors.Is(err, channel.ErrBackpressured):
 		return "backpressured"
+	case errors.Is(err, dberrors.ErrCorruptState), errors.Is(err, dberrors.ErrConflict):
+		return "corrupt-state"
+	case errors.Is(err, dberrors.ErrCorruptValue):
+		return "corrupt-value"
+	case errors.Is(err, dberrors.ErrInvalidArgument):
+		return "invalid-argument"
+	case errors.Is(err, dberrors.ErrClosed):
+		return "closed"
 	}
 	m := err.Error()
 	if len(m) > 60 {
@@ -94,6 +135,11 @@ func c09ErrClass(err error) string {
 func c09RawDump(root string) (map[string]string, error) {
 	db, err := engine.Open(root+"/db", engine.Options{ReadOnly: true, CacheSize: 1 << 20, MemTableSize: 1 << 20, Logger: wklog.NewNop()})
 	if err != nil {
+		if errors.Is(err, pebble.ErrDBDoesNotExist) || strings.Contains(err.Error(), "does not exist") {
+			// image taken before the very first open made the database durable:
+			// a read-only open cannot create it; the keyspace is empty.
+			return map[string]string{}, nil
+		}
 		return nil, err
 	}
 	defer db.Close()
@@ -128,6 +174,9 @@ func c09DumpOf(mem *vfs.MemFS, tmpRoot string, rng *rand.Rand) (map[string]strin
 // Observation through the public store API.
 
 func c09Observe(s *c09Store, ch *c09Chan, u *c09Universe) map[string]string {
+	if ch.Typed {
+		return c09ObserveTyped(s, ch, u)
+	}
 	ctx := context.Background()
 	st := s.st[ch.Idx]
 	o := make(map[string]string, 8+len(u.msgs)*3)
@@ -211,7 +260,7 @@ func c09Observe(s *c09Store, ch *c09Chan, u *c09Universe) map[string]string {
 	}
 	for no := range u.cnos {
 		k := "cno/" + no
-		if msgs, _, _, err := st.ListMessagesByClientMsgNo(no, 0, 100000); err != nil {
+		if msgs, _, _, err := st.ListMessagesByClientMsgNo(no, 0, 512); err != nil {
 			o[k] = "ERR:" + c09ErrClass(err)
 		} else {
 			parts := make([]string, len(msgs))
@@ -231,6 +280,11 @@ func c09Observe(s *c09Store, ch *c09Chan, u *c09Universe) map[string]string {
 			}
 		}
 		o["catalog"] = strconv.FormatBool(found)
+	}
+	if p, err := st.LoadSnapshotPayload(); err != nil {
+		o["snap"] = "ERR:" + c09ErrClass(err)
+	} else {
+		o["snap"] = c09SnapString(p)
 	}
 	if ch.Exact {
 		if f, err := st.LoadDurableFrontier(ctx); err != nil {
@@ -419,6 +473,9 @@ func c09ExecOp(s *c09Store, chans []*c09Chan, op []*c09Step) string {
 	}
 	st := op[0]
 	ch := chans[st.Chan]
+	if ch.Typed {
+		return c09ExecTyped(s, ch, st)
+	}
 	store := s.st[st.Chan]
 	wantErr := st.Fail != ""
 	check := func(err error) string {
@@ -520,6 +577,17 @@ func c09ExecOp(s *c09Store, chans []*c09Chan, op []*c09Step) string {
 		}
 	case "epoch":
 		return check(store.BeginEpoch(ctx, channel.EpochPoint{Epoch: st.Point.Epoch, StartOffset: st.Point.Start}, st.pre.LEO))
+	case "snapshot":
+		leo, err := store.InstallSnapshotAtomically(ctx, channel.Snapshot{ChannelKey: ch.Key, Epoch: st.Snap.Epoch, EndOffset: st.Snap.End, Payload: st.Snap.Payload},
+			channel.Checkpoint{Epoch: st.Snap.Epoch, LogStartOffset: st.Snap.End, HW: st.Snap.End}, channel.EpochPoint{Epoch: st.Point.Epoch, StartOffset: st.Point.Start})
+		if d := check(err); d != "" {
+			return d
+		}
+		if leo != st.pre.LEO {
+			return fmt.Sprintf("snapshot leo=%d want %d", leo, st.pre.LEO)
+		}
+	case "cursor":
+		return check(store.AdvanceCommittedDispatchCursorDurable(c09Cursor, st.CursorSeq))
 	default:
 		panic("c09: exec unknown kind " + st.Kind)
 	}
@@ -527,3 +595,205 @@ func c09ExecOp(s *c09Store, chans []*c09Chan, op []*c09Step) string {
 }
 
 const c09ModeBatch = 9
+
+// ---------------------------------------------------------------------------
+// Typed flavour (MessageDB.Channel -> ChannelLog).
+
+func c09ObserveTyped(s *c09Store, ch *c09Chan, u *c09Universe) map[string]string {
+	ctx := context.Background()
+	l := s.logs[ch.Idx]
+	o := make(map[string]string, 8+len(u.msgs)*3)
+	if leo, err := l.LEO(ctx); err != nil {
+		o["leo"] = "ERR:" + c09ErrClass(err)
+	} else {
+		o["leo"] = strconv.FormatUint(leo, 10)
+	}
+	if ck, ok, err := l.LoadCheckpoint(ctx); err != nil {
+		o["ckpt"] = "ERR:" + c09ErrClass(err)
+	} else if !ok {
+		o["ckpt"] = "absent"
+	} else {
+		o["ckpt"] = fmt.Sprintf("%d/%d/%d", ck.Epoch, ck.LogStartOffset, ck.HW)
+	}
+	if r, _, err := l.LoadRetentionState(ctx); err != nil {
+		o["ret"] = "ERR:" + c09ErrClass(err)
+	} else {
+		o["ret"] = fmt.Sprintf("%d/%d/%d", r.LocalRetentionThroughSeq, r.PhysicalRetentionThroughSeq, r.RetainedMaxSeq)
+	}
+	o["cursor"] = "absent" // no typed cursor API; the typed flavour never writes one
+	if h, _, err := l.LoadHistory(ctx); err != nil {
+		o["hist"] = "ERR:" + c09ErrClass(err)
+	} else {
+		hs := make([]string, len(h))
+		for i, p := range h {
+			hs[i] = fmt.Sprintf("%d@%d", p.Epoch, p.StartOffset)
+		}
+		o["hist"] = strings.Join(hs, ",")
+	}
+	if msgs, err := l.Read(ctx, 1, message.ReadOptions{}); err != nil {
+		o["rows"] = "ERR:" + c09ErrClass(err)
+	} else {
+		seqs := make([]uint64, len(msgs))
+		for i, m := range msgs {
+			seqs[i] = m.MessageSeq
+			o["row/"+strconv.FormatUint(m.MessageSeq, 10)] = fmt.Sprintf("%d|id=%d|from=%q|cno=%q|len=%d|fnv=%x|ts=%d|t=%d|so=%v|set=%d|ch=%s/%d",
+				m.MessageSeq, m.MessageID, m.FromUID, m.ClientMsgNo, len(m.Payload), c09FNV(m.Payload), m.ServerTimestampMS, 0, false, 0, m.ChannelID, m.ChannelType)
+		}
+		o["rows"] = c09SeqList(seqs)
+	}
+	for _, m := range u.msgs {
+		k := "id/" + strconv.FormatUint(m.ID, 10)
+		if got, ok, err := l.GetByMessageID(ctx, m.ID); err != nil {
+			o[k] = "ERR:" + c09ErrClass(err)
+		} else if !ok {
+			o[k] = "none"
+		} else {
+			o[k] = strconv.FormatUint(got.MessageSeq, 10)
+		}
+	}
+	for key := range u.idem {
+		k := "idem/" + key[0] + "|" + key[1]
+		if hit, ok, err := l.LookupIdempotency(ctx, message.IdempotencyKey{FromUID: key[0], ClientMsgNo: key[1]}); err != nil {
+			o[k] = "ERR:" + c09ErrClass(err)
+		} else if !ok {
+			o[k] = "none"
+		} else {
+			o[k] = fmt.Sprintf("%d:%d", hit.MessageSeq, hit.MessageID)
+		}
+	}
+	for from := range u.froms {
+		k := "sender/" + from
+		if seq, ok, err := l.GetLastSenderMessageSeq(ctx, from, ^uint64(0)); err != nil {
+			o[k] = "ERR:" + c09ErrClass(err)
+		} else if !ok {
+			o[k] = "none"
+		} else {
+			o[k] = strconv.FormatUint(seq, 10)
+		}
+	}
+	for no := range u.cnos {
+		k := "cno/" + no
+		if page, err := l.ListByClientMsgNo(ctx, no, 0, 512); err != nil {
+			o[k] = "ERR:" + c09ErrClass(err)
+		} else {
+			parts := make([]string, len(page.Messages))
+			for i, m := range page.Messages {
+				parts[i] = strconv.FormatUint(m.MessageSeq, 10)
+			}
+			o[k] = strings.Join(parts, ",")
+		}
+	}
+	if entries, err := s.tdb.ListChannels(ctx); err != nil {
+		o["catalog"] = "ERR:" + c09ErrClass(err)
+	} else {
+		found := false
+		for _, e := range entries {
+			if string(e.Key) == string(ch.Key) {
+				found = true
+			}
+		}
+		o["catalog"] = strconv.FormatBool(found)
+	}
+	if p, ok, err := l.LoadSnapshotPayload(ctx); err != nil {
+		o["snap"] = "ERR:" + c09ErrClass(err)
+	} else if !ok {
+		o["snap"] = "absent"
+	} else {
+		o["snap"] = c09SnapString(p)
+	}
+	return o
+}
+
+func c09ExecTyped(s *c09Store, ch *c09Chan, st *c09Step) string {
+	ctx := context.Background()
+	l := s.logs[ch.Idx]
+	wantErr := st.Fail != ""
+	check := func(err error) string {
+		if (err != nil) != wantErr {
+			return fmt.Sprintf("%s: err=%v wantErr=%v", st.desc(), err, wantErr)
+		}
+		return ""
+	}
+	recs := make([]message.Record, len(st.Msgs))
+	for i, m := range st.Msgs {
+		recs[i] = message.Record{ID: m.ID, ClientMsgNo: m.ClientNo, FromUID: m.From, Payload: m.Payload, ServerTimestampMS: m.TS}
+	}
+	n := uint64(len(st.Msgs))
+	checkRes := func(res message.AppendResult) string {
+		want := message.AppendResult{}
+		if n > 0 {
+			want = message.AppendResult{BaseSeq: st.pre.LEO + 1, LastSeq: st.pre.LEO + n, Count: int(n)}
+		}
+		if res != want {
+			return fmt.Sprintf("%s: result %+v want %+v", st.desc(), res, want)
+		}
+		return ""
+	}
+	switch st.Kind {
+	case "append":
+		opts := message.AppendOptions{Mode: message.AppendMode(st.Mode)}
+		if st.SrvAlloc {
+			opts.BaseSeq = st.pre.LEO + 1
+		}
+		res, err := l.Append(ctx, recs, opts)
+		if d := check(err); d != "" {
+			return d
+		}
+		if err == nil {
+			return checkRes(res)
+		}
+	case "apply":
+		req := message.ApplyFetchRequest{Records: recs}
+		if st.Mode%2 == 1 {
+			req.BaseSeq = st.pre.LEO + 1
+		}
+		if st.CkptFull != nil {
+			req.Checkpoint = &message.Checkpoint{Epoch: st.CkptFull.Epoch, LogStartOffset: st.CkptFull.LogStart, HW: st.CkptFull.HW}
+		}
+		if st.Point != nil {
+			req.EpochPoint = &message.EpochPoint{Epoch: st.Point.Epoch, StartOffset: st.Point.Start}
+		}
+		res, err := l.ApplyFetch(ctx, req)
+		if d := check(err); d != "" {
+			return d
+		}
+		if err == nil {
+			return checkRes(res)
+		}
+	case "ckptfull":
+		ck := message.Checkpoint{Epoch: st.CkptFull.Epoch, LogStartOffset: st.CkptFull.LogStart, HW: st.CkptFull.HW}
+		if st.Mode == 1 && st.Fail == "" {
+			return check(l.StoreCheckpoint(ctx, ck))
+		}
+		return check(l.StoreCheckpointMonotonic(ctx, ck, st.pre.LEO, st.pre.LEO))
+	case "truncate":
+		return check(l.TruncateFrom(ctx, st.To+1))
+	case "trim":
+		res, err := l.TrimPrefixThroughLimit(ctx, st.Through, message.RetentionTrimOptions{MaxMessages: st.MaxMsgs, MaxBytes: st.MaxBytes})
+		if d := check(err); d != "" {
+			return d
+		}
+		del, more := c09TrimPlan(st.pre, st.Through, st.MaxMsgs, st.MaxBytes)
+		var through uint64
+		if len(del) > 0 {
+			through = del[len(del)-1]
+		}
+		if res.Deleted != len(del) || res.More != more || res.DeletedThroughSeq != through {
+			return fmt.Sprintf("trim result %+v want deleted=%d through=%d more=%v", res, len(del), through, more)
+		}
+	case "epoch":
+		return check(l.AppendHistory(ctx, message.EpochPoint{Epoch: st.Point.Epoch, StartOffset: st.Point.Start}))
+	case "snapshot":
+		end, err := l.InstallSnapshot(ctx, message.Snapshot{Epoch: st.Snap.Epoch, EndOffset: st.Snap.End, Payload: st.Snap.Payload},
+			message.Checkpoint{Epoch: st.Snap.Epoch, LogStartOffset: st.Snap.End, HW: st.Snap.End}, message.EpochPoint{Epoch: st.Point.Epoch, StartOffset: st.Point.Start})
+		if d := check(err); d != "" {
+			return d
+		}
+		if end != st.Snap.End {
+			return fmt.Sprintf("snapshot end=%d want %d", end, st.Snap.End)
+		}
+	default:
+		panic("c09: typed exec unknown kind " + st.Kind)
+	}
+	return ""
+}
